@@ -32,7 +32,7 @@ CORPORA = {
                      FindPos="{0, 1, 2, 4, 7, 8, 12, 16, 24, 8168, 8176, 8180, 8184, 8185, 8188, 8189, 8190, 8191, 8192, 8196, 8200, 8208}"),
                  profiles=DEV_REL, place="both"),
     "cks": dict(model="MC_Header", cfg="MC_Cks", quick={}, thorough={}, profiles=DEV_REL, place="end"),
-    "ctor": dict(model="MC_Build", cfg="MC_Ctor", quick=dict(MaxContent=17), thorough=dict(MaxContent=40), profiles=DEV_REL, place="end"),
+    "ctor": dict(model="MC_Build", cfg="MC_Ctor", quick=dict(MaxContent=17, BigPalettes="{257, 21847, 21848, 65537, 65538}"), thorough=dict(MaxContent=40, BigPalettes="{257, 21847, 21848, 21849, 65537, 65538}"), profiles=DEV_REL, place="end"),
     "boxed": dict(model="MC_Build", cfg="MC_Boxed", quick=dict(MaxTotal=8), thorough=dict(MaxTotal=17), profiles=DEV_REL, place="end"),
     "builder": dict(model="MC_Build", cfg="MC_Builder", quick=dict(MaxSeq=2), thorough=dict(MaxSeq=3), profiles=DEV_REL, place="end"),
     "hbuilder": dict(model="MC_Build", cfg="MC_HBuilder", quick=dict(MaxSeq=3), thorough=dict(MaxSeq=4), profiles=DEV_REL, place="end"),
